@@ -47,6 +47,11 @@ func (c *constExpr) Exit(node *Node) {
 					param = nil
 				case *IntegerNode:
 					param = a.Value
+					if t := a.Type(); t != nil && t.Kind() != reflect.Int && reflect.TypeOf(a.Value).ConvertibleTo(t) && isNumericKind(t.Kind()) {
+						// The checker retyped this literal to the parameter's
+						// numeric kind; pass it the way the compiler emits it.
+						param = reflect.ValueOf(a.Value).Convert(t).Interface()
+					}
 				case *FloatNode:
 					param = a.Value
 				case *BoolNode:
@@ -74,4 +79,14 @@ func (c *constExpr) Exit(node *Node) {
 			patch(constNode)
 		}
 	}
+}
+
+func isNumericKind(k reflect.Kind) bool {
+	switch k {
+	case reflect.Int, reflect.Int8, reflect.Int16, reflect.Int32, reflect.Int64,
+		reflect.Uint, reflect.Uint8, reflect.Uint16, reflect.Uint32, reflect.Uint64,
+		reflect.Float32, reflect.Float64:
+		return true
+	}
+	return false
 }
